@@ -119,6 +119,7 @@ func Load(opt LoadOptions) (*Program, error) {
 		p.fakes[name] = &fakeType{name: name}
 	}
 	registerFakes(p)
+	p.lazyT = p.fakes["lazyjson"]
 	return p, nil
 }
 
